@@ -82,7 +82,7 @@ MutBase(i) ==
 
 ValidCase(d) ==
     LET wf == WellFormed(d) IN
-    [kind |-> "parse", text |-> Render(d), claim |-> IF wf THEN "Conforming" ELSE "Other",
+    [kind |-> "parse", text |-> Render(d), claim |-> IF ~wf THEN "Other" ELSE IF HasOpaque(d) THEN "Unspecified" ELSE "Conforming",
      line |-> 0, den |-> IF wf THEN Denote(d) ELSE <<>>, loose |-> HasLoose(d)]
 MutCase(m) ==
     [kind |-> "parse", text |-> JoinL(m.lines), claim |-> IF m.rule = "unspecified" THEN "Unspecified" ELSE "Violating",
